@@ -68,6 +68,20 @@ def pipeline(fam, progs, outdir, module, cap=6000, pb=None, workers=6, max_diag=
     reached, leaves, tres = vlib.validate_trie(outdir, workers=workers, module=module)
     if not tres["ok"]:
         problems.append({"kind": "tlc-error", "where": module, "errors": tres["errors"][:5], "sig": f"{fam}/tlc-error/trace"})
+    # deviations that the model admits only under a flag (an execution explained without any flag is clean)
+    flagged = {}
+    for leaf, names in tres.get("leaf_violations", {}).items():
+        for nm in names:
+            flagged.setdefault(nm, []).append(leaf)
+    if flagged:
+        nodes, parent = vlib.load_trie(outdir)
+        for nm, lvs in flagged.items():
+            leaf = min(lvs)
+            path = vlib.path_to(nodes, parent, leaf)
+            pid = nodes[path[0]]["ev"]["p"]
+            evs = [nodes[n]["ev"] for n in path]
+            problems.append({"kind": "contract-deviation", "prog": by_id[pid], "count": len(lvs), "events": evs, "matched": len(evs),
+                             "spec_state": "(whole execution explained, using the flagged deviation)", "sig": f"{fam}/deviation/{nm}"})
     missing = sorted(leaves - reached)
     if missing:
         nodes, parent = vlib.load_trie(outdir)
@@ -182,6 +196,118 @@ def run_c19(tier):
         summ.append(r["summary"])
         problems += r["problems"]
     return finish("C19", tier, t0, summ, problems, C19_ASSUME, "TraceTokio", samples=[r.get("sample") for r in results])
+
+
+C20_STAGES = [("pl_corpus", 0, 0), ("pl_rw", 30, 300), ("pl_dm", 24, 250), ("pl_mx", 16, 150)]
+C20_ASSUME = [
+    "reference models (spec/Locks.tla): lock_api RwLock contract (shared / upgradable / exclusive, upgrade, try_upgrade, downgrade, "
+    "downgrade_upgradable, downgrade_to_upgradable, try variants), Mutex, DashMap as an atomic plain map (insert/get/remove/"
+    "contains_key/len/alter/clear, values copied out: no guard is held across operations)",
+    "the parking_lot replacement is driven through the raw lock_api traits (one call per operation); a value protected by the lock "
+    "makes overtaking visible",
+    "try variants may fail while another task's operation on the same lock is in progress (lock_api leaves that open)",
+    "deterministic collections: the same operation history is applied in two separate processes (and to two instances per process); "
+    "results and contents are compared with a plain map model, iteration orders across processes",
+    "rand / lazy_static replacements: every recorded execution under the random scheduler is replayed from its schedule string "
+    "and the drawn values compared; the lazy static is initialised exactly once per execution",
+]
+
+
+def collections_probe(tier):
+    """deterministic HashMap / HashSet: results equal a plain map's; iteration order identical across processes."""
+    import random
+    import subprocess
+    rng = random.Random(f"collections:{vlib.seed()}")
+    nhist = 12 if tier == "quick" else 200
+    problems = []
+    rep = []
+    d = vlib.fresh_dir(os.path.join(vlib.WORK, f"collections-{tier}"))
+    for h in range(nhist):
+        ops = []
+        model, mset, want = {}, set(), []
+        for _ in range(rng.randint(5, 120)):
+            o = rng.choice(["ins", "ins", "ins", "rem", "get", "len", "sins", "sins", "srem", "shas"])
+            k, v = rng.randrange(48), rng.randrange(100)
+            ops.append({"op": o, "k": k, "v": v})
+            if o == "ins":
+                want.append(model.get(k, -1)); model[k] = v
+            elif o == "rem":
+                want.append(model.pop(k, -1))
+            elif o == "get":
+                want.append(model.get(k, -1))
+            elif o == "len":
+                want.append(len(model))
+            elif o == "sins":
+                want.append(0 if k in mset else 1); mset.add(k)
+            elif o == "srem":
+                want.append(1 if k in mset else 0); mset.discard(k)
+            else:
+                want.append(1 if k in mset else 0)
+        hp = os.path.join(d, f"h{h}.ndjson")
+        with open(hp, "w") as f:
+            f.write("\n".join(json.dumps(o) for o in ops) + "\n")
+        outs = []
+        for run in range(2):
+            env = dict(os.environ, VERIF_PROBE_RUN=str(run))
+            r = subprocess.run([vlib.WBIN, "iter", "--history", hp], stdout=subprocess.PIPE, stderr=subprocess.PIPE, text=True, env=env)
+            if r.returncode != 0:
+                problems.append({"kind": "harness-crash", "stderr": r.stderr[-800:], "sig": "collections/probe-crash"})
+                break
+            outs.append(json.loads(r.stdout))
+        if len(outs) < 2:
+            continue
+        for inst in outs[0]["instances"]:
+            if inst["results"] != want:
+                problems.append({"kind": "collections", "detail": {"history": hp, "instance": inst["instance"]}, "sig": "collections/results-differ-from-plain-map"})
+            if sorted(map(tuple, inst["map_order"])) != sorted(model.items()) or sorted(inst["set_order"]) != sorted(mset):
+                problems.append({"kind": "collections", "detail": {"history": hp, "instance": inst["instance"]}, "sig": "collections/contents-differ-from-plain-map"})
+        if outs[0] != outs[1]:
+            problems.append({"kind": "collections", "detail": {"history": hp, "first": outs[0]["instances"][0]["map_order"][:6],
+                                                                "second": outs[1]["instances"][0]["map_order"][:6]},
+                             "sig": "collections/iteration-order-differs-across-processes"})
+        rep.append({"ops": len(ops), "entries": len(model)})
+    return problems, {"histories": len(rep), "max_ops": max([r["ops"] for r in rep] or [0])}
+
+
+def rand_probe(tier):
+    import subprocess
+    iters = 40 if tier == "quick" else 1500
+    r = subprocess.run([vlib.WBIN, "randcheck", "--iters", str(iters), "--seed", str(vlib.seed())], stdout=subprocess.PIPE,
+                       stderr=subprocess.PIPE, text=True)
+    if r.returncode != 0:
+        return [{"kind": "harness-crash", "stderr": r.stderr[-800:], "sig": "rand/probe-crash"}], {}
+    d = json.loads(r.stdout.strip().splitlines()[-1])
+    problems = []
+    if d["replay_mismatch"]:
+        problems.append({"kind": "rand", "detail": d, "sig": "rand/replay-differs"})
+    if d["lazy_init_not_once"]:
+        problems.append({"kind": "rand", "detail": d, "sig": "lazy_static/not-initialised-once-per-execution"})
+    if d["distinct_lines"] < 10 or d["execs"] != iters:
+        problems.append({"kind": "rand", "detail": d, "sig": "rand/probe-vacuous"})
+    return problems, {k: d[k] for k in ("execs", "replay_mismatch", "lazy_init_not_once", "distinct_lines")}
+
+
+def run_c20(tier):
+    t0 = time.time()
+    vlib.build_wrap()
+    cap = 3000 if tier == "quick" else 100000
+    from concurrent.futures import ThreadPoolExecutor
+
+    def stage(st):
+        fam, q, t = st
+        progs = wrapgen.family(fam, q if tier == "quick" else t, vlib.seed())
+        return cached(fam, progs, tier, "TraceLocks", cap, None)
+    with ThreadPoolExecutor(max_workers=int(os.environ.get("VERIF_STAGE_JOBS", "3"))) as ex:
+        results = list(ex.map(stage, C20_STAGES))
+    summ, problems = [], []
+    for r in results:
+        summ.append(r["summary"])
+        problems += r["problems"]
+    cp, crep = collections_probe(tier)
+    rp, rrep = rand_probe(tier)
+    problems += cp + rp
+    return finish("C20", tier, t0, summ, problems, C20_ASSUME, "TraceLocks", samples=[r.get("sample") for r in results],
+                  extra={"collections_probe": crep, "rand_lazy_static_probe": rrep})
 
 
 def dev_family(fam, count, cap, module="TraceTokio", show=2, only=None):
